@@ -208,6 +208,15 @@ class Observation:
 def _san_env(stage, outdir, slice_idx, attempt):
     env = dict(os.environ)
     env.update(stage.env)
+    if stage.env.get("VERIF_LOCALE"):
+        # run the harness in a process whose libc locale is a single-byte one built by tools/mk_locale.py
+        import mk_locale
+        lp = mk_locale.ensure()
+        if not lp:
+            raise Inconclusive("localedef could not build the 8-bit locale needed by stage %s" % stage.name)
+        env["LOCPATH"] = lp
+        env["LC_ALL"] = "xx_XX"
+        env["VERIF_SETLOCALE"] = "1"
     leak = "1" if stage.leak else "0"
     env["ASAN_OPTIONS"] = ("abort_on_error=1:detect_leaks=%s:allocator_may_return_null=0:handle_abort=0:"
                            "detect_stack_use_after_return=0:print_summary=1:malloc_context_size=12" % leak)
